@@ -374,6 +374,18 @@ func (f *Frame) applyContract(c *Contract, sig *types.Signature, invoke bool, ar
 	f.adoptFresh(c, rn, results, in)
 	envM := f.bindContractEnv(c, sig, invoke, args, results)
 	f.applyModifies(c, envM, in)
+	if c.Kind == "func" {
+		// history ghosts carry no frame obligations, so a function under contract may have changed them
+		var nf []string
+		for _, gn := range tr.eng.db.GhostOrder {
+			if tr.eng.db.Ghosts[gn].NoFrame {
+				nf = append(nf, gn)
+			}
+		}
+		if len(nf) > 0 {
+			f.havocGhosts(nf, false)
+		}
+	}
 	env2 := f.bindContractEnv(c, sig, invoke, args, results)
 	env2.old = old
 	env2.cur = f.cur.St
@@ -384,6 +396,12 @@ func (f *Frame) applyContract(c *Contract, sig *types.Signature, invoke bool, ar
 		}
 		t, err := env2.boolExpr(cl.E)
 		if err != nil {
+			if c.Kind == "func" && strings.Contains(err.Error(), "unknown identifier") {
+				// a postcondition over the callee's own local variables is internal to the callee (a typo would have
+				// failed where the callee itself is verified); callers learn nothing from it
+				tr.note("internal postcondition of " + c.Key + " not used at call sites: " + cl.Label)
+				continue
+			}
 			tr.errorf("%s: ensures of %s: %v", f.fn.Name(), c.Key, err)
 			continue
 		}
